@@ -148,6 +148,8 @@ type FS struct {
 	hits     int
 	hitKinds map[string]int
 
+	Perturb    func() // optional schedule perturbation before persister-side operations
+
 	Creates    int
 	MaxCreates int
 
@@ -265,6 +267,9 @@ func (fs *FS) observeDir() {
 // It returns the trace index (or -1) and an injected fault (or nil).
 func (fs *FS) pre(kind, name string, off int64, data []byte, flags int) (int, *Fault) {
 	h := fs.inHarness()
+	if fs.Perturb != nil && !h && kind != "read" {
+		fs.Perturb()
+	}
 	if !h && (kind == "stat" || kind == "sync" || kind == "write") {
 		fs.mu.Lock()
 		match := false
